@@ -384,6 +384,91 @@ def real_types(tr):
     return out
 
 
+HYB_SRC = '''
+def make():
+    import xobjects as xo
+
+    class Rng(xo.HybridClass):
+        _xofields = {"s": xo.Int64}
+
+    class Kick(xo.HybridClass):
+        _xofields = {"k": xo.Float64}
+        _depends_on = [Rng]  # a dependency declared as a hybrid class
+        _extra_c_sources = ["/*gpufun*/ int64_t Kick_seed(RngData r){ return RngData_get_s(r); }"]
+
+    class Line(xo.HybridClass):
+        _xofields = {"e": Kick._XoStruct[:], "n": xo.Int32}
+        _depends_on = [Kick]
+
+    class Mon(xo.HybridClass):
+        _xofields = {"q": xo.Float64[:]}
+        _depends_on = [Rng._XoStruct]  # ... and as the struct class
+
+    return dict(Rng=Rng, Kick=Kick, Line=Line, Mon=Mon)
+
+
+def xs(c):
+    return getattr(c, "_XoStruct", c)
+
+
+def judge(roots):
+    """roots: hybrid classes and/or struct classes, as a user passes them to add_kernels(extra_classes=...)"""
+    import xobjects as xo
+    from xobjects.context import sort_classes
+
+    clos, st = [], [xs(r) for r in roots]
+    while st:
+        c = st.pop()
+        if any(c is x for x in clos):
+            continue
+        clos.append(c)
+        st += [xs(d) for d in (list(c._get_inner_types()) if hasattr(c, "_get_inner_types") else [])]
+        st += [xs(d) for d in getattr(c, "_depends_on", [])]
+    need = [c for c in clos if hasattr(c, "_gen_c_api")]
+    res = sort_classes(list(roots))
+    names = [c.__name__ for c in res]
+    for c in need:
+        k = sum(1 for r in res if r is c)
+        if k != 1:
+            return f"class {c.__name__} needed by {[r.__name__ for r in roots]} is emitted {k} times; emitted: {names}"
+    pos = {id(c): i for i, c in enumerate(res)}
+    for c in need:
+        for d in [xs(d) for d in (list(c._get_inner_types()) if hasattr(c, "_get_inner_types") else []) + list(getattr(c, "_depends_on", []))]:
+            if hasattr(d, "_gen_c_api") and id(d) in pos and not pos[id(d)] < pos[id(c)]:
+                return f"{d.__name__} is emitted after its dependant {c.__name__}"
+    try:
+        xo.ContextCpu().add_kernels(kernels={}, extra_classes=list(roots))
+    except Exception as ex:  # noqa
+        return f"the source emitted for {[r.__name__ for r in roots]} does not build: {type(ex).__name__}: {str(ex)[:120]}"
+    return None
+'''
+exec(HYB_SRC)
+
+HYB_ROOTS = [("Kick",), ("Line",), ("Mon",), ("Line", "Mon"), ("Rng", "Kick"), ("Mon", "Line", "Rng")]
+
+REPLAY_HYB = '''#!/usr/bin/env python
+"""replay: hybrid classes with declared dependencies against sort_classes + cffi build (exit 1 = violated)"""
+import sys
+{src}
+cl = make()
+roots = [{sel} for n in {names!r}]
+msg = judge(roots)
+if msg:
+    print("VIOLATED:", msg); sys.exit(1)
+print("property holds on this case"); sys.exit(0)
+'''
+
+
+def _hyb_case(arg):
+    names, as_struct = arg
+    cl = make()
+    roots = [cl[n]._XoStruct if as_struct else cl[n] for n in names]
+    try:
+        return judge(roots)
+    except Exception as ex:  # noqa
+        return f"sort_classes raised {type(ex).__name__}: {str(ex)[:100]}"
+
+
 REPLAY_REAL = '''#!/usr/bin/env python
 """replay: dependency closure of a real catalogue type against sort_classes + cffi build (exit 1 = violated)"""
 import os, sys
@@ -467,6 +552,16 @@ def main(pid):
     rep.extra["real_catalogue_types_checked"] = rt["types"]
     for label, ast, msg in rt["failures"]:
         rep.candidate("sort-real:" + msg.split(":")[0][:60].replace(label, ""), f"real classes of {label}: {msg} (concrete observation on the catalogue)", REPLAY_REAL.format(ast=repr(ast)))
+    # hybrid classes: dependencies declared as hybrid classes / struct classes, roots given either way (concrete
+    # observation with a cffi build per case)
+    hjobs = [(names, as_struct) for names in HYB_ROOTS for as_struct in (True, False)]
+    hres = run_parallel(_hyb_case, hjobs)
+    for (names, as_struct), msg in zip(hjobs, hres):
+        if msg:
+            sel = "cl[n]._XoStruct" if as_struct else "cl[n]"
+            rep.candidate("sort-hybrid:" + ("struct-roots" if as_struct else "hybrid-roots") + ":" + msg.split(" needed by")[0][:50], f"hybrid classes {names} given as {'struct' if as_struct else 'hybrid'} classes: {msg} (concrete observation)", REPLAY_HYB.format(src=HYB_SRC, sel=sel, names=tuple(names)))
+    rep.validated += len(hjobs)
+    rep.extra["hybrid_dependency_cases"] = len(hjobs)
     rep.extra["graphs_explored"] = graphs
     rep.extra["exhaustive"] = True
     rep.extra["rule"] = "one evaluation = one obligation about one dependency graph (one feasible path of the real sort_classes over solver-variable edges); all graphs inside the bound are enumerated; non-trivial/distinct counted by md5 of (configuration, obligation, path)"
